@@ -138,3 +138,20 @@ func FieldKeyString(str string) string {
 	// first letter lower case
 	return strings.ToLower(str[:1]) + str[1:]
 }
+
+// addressOf returns a pointer to the given value as an interface (nil if the value is a pointer or an interface
+// itself, or invalid). A value that is not addressable is copied first.
+func addressOf(value reflect.Value) any {
+	if !value.IsValid() || value.Kind() == reflect.Ptr || value.Kind() == reflect.Interface {
+		return nil
+	}
+
+	if value.CanAddr() {
+		return value.Addr().Interface()
+	}
+
+	valueCopy := reflect.New(value.Type())
+	valueCopy.Elem().Set(value)
+
+	return valueCopy.Interface()
+}
